@@ -340,7 +340,11 @@ def check_parser_by_folding(ctx, pt):
                 ('permission is a list', False, {OT: {'GET': ['ALLOW_ALL']}}),
                 ('operations not an object', False, {OT: 'x'}),
                 ('section is a string', False, 'x'),
-                ('section is a list', False, ['x'])]
+                ('section is a list', False, ['x']),
+                # falsy non-objects: a truthiness short-cut in front of the type test must not let them through
+                ('section is null', False, None), ('section is an empty list', False, []), ('section is an empty string', False, ''),
+                ('operations is null', False, {OT: None}), ('operations is an empty list', False, {OT: []}),
+                ('permission is null', False, {OT: {'GET': None}})]
     policies = [('empty policy', True, {})]
     for sn, sv, sec in sections:
         policies.append(('preset: %s' % sn, sv, {'preset': sec}))
@@ -352,8 +356,10 @@ def check_parser_by_folding(ctx, pt):
                  ('unknown section next to a valid preset', False, {'preset': good, 'bogus': good}),
                  ('unknown section next to valid groups', False, {'groups': {'g1': good}, 'bogus': good}),
                  ('section name mixed with an object type', False, {'preset': good, 'CERTIFICATE': {'GET': 'ALLOW_ALL'}}),
-                 ('policy is a string', False, 'x'), ('policy is a list', False, [good])]
-    docs = [('document is a list', False, [1]), ('document is a string', False, 'x'), ('empty document', True, {})]
+                 ('policy is a string', False, 'x'), ('policy is a list', False, [good]),
+                 ('policy is null', False, None), ('policy is an empty list', False, []), ('policy is an empty string', False, ''), ('policy is zero', False, 0),
+                 ('policy is false', False, False), ('groups is null', False, {'groups': None}), ('groups is an empty list', False, {'groups': []})]
+    docs = [('document is a list', False, [1]), ('document is a string', False, 'x'), ('empty document', True, {}), ('document is null', False, None), ('document is an empty list', False, [])]
     for pn, pv_, pol in policies:
         docs.append((pn, pv_, {'p': pol}))
         docs.append(('a valid policy followed by: %s' % pn, pv_, {'a': {'preset': good}, 'p': pol}))
